@@ -178,6 +178,9 @@ def gen_cases(rng, tier, h):
         if backend == "internal" and rng.chance(0.05):
             c.append("pipe %d %d" % (rng.pick([1, 2, 3, 7, 15]), rng.pick([1, 7, 8, 9, 100, 1000, 20000])))
         cases.append(c)
+    if backend == "internal":
+        # just beyond INT_MAX: two task sets (2^31-1 and a few indices); the 32-bit chunking of the Internal backend
+        cases.append(["init %d" % min(HW, 16), "pforbig %s %d" % (rng.pick(["sz", "ull", "i64", "ll"]), (1 << 31) + rng.pick([0, 1, 5, 1000]))])
     if tier == "thorough" and backend == "internal":
         # a count that does not fit 32 bits: three task sets (2^31-1, 2^31-1, 7 indices)
         cases.append(["init %d" % min(HW, 16), "pforbig sz 4294967301"])
